@@ -17,6 +17,8 @@ import (
 	"go.amzn.com/lambda/rapi/rendering"
 	supvmodel "go.amzn.com/lambda/supervisor/model"
 	"go.amzn.com/lambda/telemetry"
+
+	log "github.com/sirupsen/logrus"
 )
 
 type Sandbox struct {
@@ -64,6 +66,10 @@ func Start(ctx context.Context, s *Sandbox) (interop.RapidContext, interop.Inter
 	appctx.StoreInitType(appCtx, s.InitCachingEnabled)
 
 	server := rapi.NewServer(s.RuntimeAPIHost, s.RuntimeAPIPort, appCtx, registrationService, renderingService, s.EnableTelemetryAPI, s.LogsSubscriptionAPI, s.TelemetrySubscriptionAPI, credentialsService)
+	// Listen before the address is published: with port 0 the port is only known once the listener exists
+	if err := server.Listen(); err != nil {
+		log.WithError(err).Panic("Runtime API Server failed to listen")
+	}
 	runtimeAPIAddr := fmt.Sprintf("%s:%d", server.Host(), server.Port())
 
 	// TODO: pass this directly down to HTTP servers and handlers, instead of using
